@@ -12,7 +12,7 @@ import json
 
 from . import boot
 from .boot import HarnessError
-from .simrng import SimAbort
+from .simrng import BudgetExceeded, SimAbort
 
 _W = None  # current world
 _INSTALLED = False
@@ -48,6 +48,8 @@ class World:
         self.pmf_max_array = 3_000_000
         self.simfs = simfs
         self.counters = {}
+        self.attach_count = 0
+        self.attach_limit = 500
 
     # events ---------------------------------------------------------------
     def event(self, ev, live=None):
@@ -209,6 +211,9 @@ def install():
         w = _W
         if w is None or not hasattr(self, "_gb_obj") or not hasattr(other, "_gb_obj"):
             return orig_attach(self, self_bond_idx, other, other_bond_idx, *a, **k)
+        w.attach_count += 1
+        if w.attach_count > w.attach_limit:
+            raise BudgetExceeded(f"more than {w.attach_limit} attach steps in one run")
         pre_self = [desc_view(b) for b in self.bond_descriptors]
         pre_other = [desc_view(b) for b in other.bond_descriptors]
         na_s, nb_s = _natoms(self)
@@ -359,10 +364,13 @@ def install():
 
         def UFFOptimizeMolecule(self, mol, *a, **k):
             w = _W
-            if w is None or w.embed == "real":
+            if w is None:
+                return real_allchem.UFFOptimizeMolecule(mol, *a, **k)
+            if w.embed == "real":
                 if mol.GetNumConformers() == 0:
                     return -1
-                return real_allchem.UFFOptimizeMolecule(mol, *a, **k)
+                # coordinates are in no property: bound the optimiser (C code cannot be interrupted by the watchdog)
+                return real_allchem.UFFOptimizeMolecule(mol, maxIters=50)
             return 0
 
     mol_gen.AllChem = AllChemShim()
